@@ -916,3 +916,133 @@ def I_MSG_CLASSES(repo):
             except Exception:
                 pass
     return out
+
+
+# ---------------------------------------------------------------------------------------------
+# decode_msg, chunked receive (STORE_RECV_CHUNKED_DATASET): the data set of a C-STORE-RQ goes to a file (C25)
+# ---------------------------------------------------------------------------------------------
+class CxMap:
+    """assoc._accepted_cx: looking a context id up gives THAT context (an object that remembers the key)"""
+
+    def __init__(self):
+        self.lookups = []
+
+    def sym_index(self, I, key):
+        self.lookups.append(key)
+        cx = Env(f"accepted_cx[{len(self.lookups) - 1}]")
+        cx.data["key"] = key
+        ts = Env(f"{cx.path}.transfer_syntax[0]")
+        ts.data["of_key"] = key
+        cx.attrs["transfer_syntax"] = [ts]
+        return cx
+
+
+class DecodeChunkedTask(Task):
+    """decode_msg with chunked receive on: the last command fragment of a C-STORE-RQ that announces a data set opens a DICOM file -
+    128-byte preamble, 'DICM', File Meta with the SOP class/instance of the command set and the transfer syntax OF THE
+    PRESENTATION CONTEXT THE MESSAGE ARRIVED ON (the data-set bytes that follow are in that syntax and go to the file unchanged) -
+    and every data-set fragment's payload is appended to that file, not to the in-memory buffer."""
+    name = "decode_msg/chunked-receive"
+    functions = [DEC]
+    shard = False
+
+    def __init__(self, prefix="C25/"):
+        self.prefix = prefix
+
+    def config(self, repo):
+        c = decode_config(repo, self.prefix)
+        c.module_consts[("pynetdicom._config", "STORE_RECV_CHUNKED_DATASET")] = True
+        base_call = c.env_call
+
+        def env_call(I, env, method, args, kw):
+            g = I.ghost
+            if env.path == "data_set_file" and method == "write":
+                g.setdefault("file_writes", []).append(args[0])
+                I.trace.append(Ev("file.write", (args[0],)))
+                return None
+            return base_call(I, env, method, args, kw)
+        c.env_call = env_call
+
+        def ntf(I, a, k):
+            I.trace.append(Ev("NamedTemporaryFile", (dict(k),)))
+            f = Env("data_set_file")
+            f.truth = True
+            f.attrs["name"] = "/tmp/x.dcm"
+            f.attrs["file"] = Env("data_set_file.file")
+            return f
+        c.ext_models["tempfile.NamedTemporaryFile"] = ntf
+        c.ext_models["pathlib.Path"] = lambda I, a, k: ("Path", a[0])
+        c.ext_models["pydicom.filewriter.write_file_meta_info"] = lambda I, a, k: I.trace.append(Ev("write_file_meta_info", (a[0], a[1])))
+
+        def cfm(I, a, k):
+            names = ["sop_class_uid", "sop_instance_uid", "transfer_syntax"]
+            ar = dict(zip(names, a))
+            ar.update(k)
+            m = Env("file_meta")
+            m.data["args"] = ar
+            return m
+        c.summaries["pynetdicom.dsutils:create_file_meta"] = cfm
+
+        def dec(I, args, kw):
+            g = I.ghost
+            cs = Env("decoded_command_set")
+            cds = I.input("int", "CommandDataSetType")
+            I.assume(cds.e != 0x0101)
+            cs.attrs.update(CommandField=0x0001, CommandDataSetType=cds, AffectedSOPClassUID=Env("cs.AffectedSOPClassUID"),
+                            AffectedSOPInstanceUID=Env("cs.AffectedSOPInstanceUID"))
+            g["cs"] = cs
+            return cs
+        c.summaries["pynetdicom.dsutils:decode"] = dec
+        return c
+
+    def body(self, I):
+        P = f"{self.prefix}{DEC}"
+        g = I.ghost
+        g["cmd_buf"] = I.input("bytes", "cmd_buf_in").e
+        g["ds_buf"] = I.input("bytes", "ds_buf_in").e
+        which = I.choose(2, "fragment")        # 0: the last command fragment; 1: a data-set fragment while the file is open
+        msg = Obj(I.repo.cls(f"{DM}:DIMSEMessage"), tag="msg")
+        f_open = Env("data_set_file")
+        f_open.truth = True
+        f_open.attrs["file"] = Env("data_set_file.file")
+        msg.fields.update(context_id=None, command_set=Env("command_set"), _data_set_path=None, _data_set_file=f_open if which == 1 else None,
+                          encoded_command_set=Env("encoded_command_set"), data_set=Env("data_set"))
+        ctx = I.input("int", "pdv_context_id")
+        payload = I.input("bytes", "payload")
+        last = I.choose(2, "last fragment") == 1 if which == 1 else True
+        header = (3 if which == 0 else (2 if last else 0))
+        data = LB([Raw(bytes([header])), Blob(payload.e)])
+        prim = Obj(I.repo.cls("pynetdicom.pdu_primitives:P_DATA"), tag="pdata")
+        prim.fields["_presentation_data_value_list"] = [(ctx, data)]
+        g["check_step"] = lambda *a: None
+        assoc = Env("assoc")
+        cxmap = CxMap()
+        assoc.attrs["_accepted_cx"] = cxmap
+        kind, val = I.run_function(I.repo.func(DEC), [msg, prim, assoc])
+        I.ob(f"{P}/chunked:no-exception", kind == "return", detail=f"{kind}:{val!r}")
+        if kind != "return":
+            return
+        fw = g.get("file_writes", [])
+        if which == 1:
+            mem = [w for w in g.get("writes", []) if w[0] == "ds_buf"]
+            ok = len(fw) == 1 and not mem and _zb(I.eq(fw[0], LB([Blob(payload.e)])))
+            I.ob(f"{P}/chunked:a-data-set-fragment's-payload-is-appended-to-the-open-file-and-not-kept-in-memory", ok, detail=f"{fw!r} {mem!r}")
+            I.ob(f"{P}/chunked:complete-exactly-at-the-last-data-set-fragment", I.as_bool(val) is last, detail=repr(val))
+            return
+        names = [e.name for e in I.trace if e.name in ("NamedTemporaryFile", "file.write", "write_file_meta_info")]
+        I.ob(f"{P}/chunked:the-file-starts-with-the-128-byte-preamble-and-DICM-followed-by-the-File-Meta",
+             names == ["NamedTemporaryFile", "file.write", "file.write", "write_file_meta_info"] and len(fw) == 2
+             and fw[0] == b"\x00" * 128 and fw[1] == b"DICM", detail=f"{names} {fw!r}")
+        metas = [e for e in I.trace if e.name == "write_file_meta_info"]
+        if len(metas) != 1 or not isinstance(metas[0].args[1], Env) or "args" not in metas[0].args[1].data:
+            I.ob(f"{P}/chunked:the-File-Meta-is-built-by-create_file_meta", False, detail=repr(metas))
+            return
+        ar = metas[0].args[1].data["args"]
+        cs = g["cs"]
+        I.ob(f"{P}/chunked:the-File-Meta-names-the-SOP-class-and-instance-of-the-command-set",
+             ar.get("sop_class_uid") is cs.attrs["AffectedSOPClassUID"] and ar.get("sop_instance_uid") is cs.attrs["AffectedSOPInstanceUID"], detail=repr(ar))
+        ts = ar.get("transfer_syntax")
+        of_key = ts.data.get("of_key") if isinstance(ts, Env) else None
+        I.ob(f"{P}/chunked:the-File-Meta's-transfer-syntax-is-that-of-the-presentation-context-the-message-arrived-on",
+             of_key is not None and _zb(I.eq(of_key, ctx)), detail=f"transfer syntax {ts!r} looked up with {of_key!r}; the PDV's context id is {ctx!r}")
+        I.ob(f"{P}/chunked:the-message-is-not-complete-before-its-data-set-arrived", I.as_bool(val) is False, detail=repr(val))
